@@ -89,18 +89,20 @@ def make_method(world_box, provider, name, is_async, uid, wrapped_plain=False):
             return world_box[0].cb(provider, name, self, args, kwargs)
 
     m.__name__ = name
-    m.__qualname__ = f"VM{uid}.{provider}.{name}.{'a' if is_async else 's'}"
+    # uid may be a string "twin:<n>": then the plain and the coroutine rendering share one qualified name
+    suffix = "" if str(uid).startswith("twin:") else f".{'a' if is_async else 's'}"
+    m.__qualname__ = f"VM{uid}.{provider}.{name}{suffix}"
     return m
 
 
-def render(am, world_box, class_name=None, strict_states=False):
+def render(am, world_box, class_name=None, strict_states=False, uid=None):
     """Build the real classes for `am` with the public declaration API.
 
     Returns dict(cls=<StateMachine subclass>, model_cls=<class or None>, listener_classes=[...]).
     """
     from statemachine import State, StateMachine
 
-    uid = next(_uid)
+    uid = next(_uid) if uid is None else uid
     asyncs = {tuple(x) for x in am.get("async", [])}
     plain_wrapped = {tuple(x) for x in am.get("async_behind_plain_decorator", [])}
     attrs = {}
